@@ -390,7 +390,7 @@ func runC14(w *mon.W) {
 		} else {
 			var z poly.Sequence
 			how := "gff.Parse of an independently laid out file"
-			parse := func() { z = gff.Parse([]byte(lay)) }
+			parse := func() { buf := []byte(lay); z = gff.Parse(buf); scribble(buf) }
 			if k%5 == 2 {
 				// the same text through the file-based entry point
 				how = "gff.Read of an independently laid out file"
